@@ -87,6 +87,8 @@ pub enum SStep {
     DelayedExec(u64),
     Subscribe(u8),
     CtxStop,
+    /// in the n first incarnations, started() asks for a restart (an actor that retries its initialisation)
+    CtxRestartUntil(u32),
 }
 
 #[derive(Clone, Copy, Debug, PartialEq, Eq)]
@@ -166,11 +168,13 @@ pub struct Probe<const KK: usize> {
     pub actor: u32,
     /// in-actor FIFO monitor for burst traffic: client -> (next expected sequence number, handled count)
     pub bursts: HashMap<u16, (u32, u32)>,
+    /// which started() of this tag this incarnation is (0-based)
+    pub inc_no: u32,
 }
 
 impl<const KK: usize> Probe<KK> {
     pub fn new(spec: Arc<Spec>) -> Self {
-        Probe { obj: log::uid(), tag: spec.tag, spec, seq: 0, fold: 0, handled: Vec::new(), actor: u32::MAX, bursts: HashMap::new() }
+        Probe { obj: log::uid(), tag: spec.tag, spec, seq: 0, fold: 0, handled: Vec::new(), actor: u32::MAX, bursts: HashMap::new(), inc_no: 0 }
     }
     fn apply(&mut self, msg: Uid) {
         self.seq += 1;
@@ -381,6 +385,13 @@ impl<const KK: usize> Probe<KK> {
                     };
                     log::log(K::Effect { msg: which, actor, step: i, what: "subscribe", arg: *t as u64, ok });
                 }
+                SStep::CtxRestartUntil(n) => {
+                    if self.inc_no < *n {
+                        log::log(K::Effect { msg: which, actor, step: i, what: "ctx_restart.begin", arg: 0, ok: true });
+                        let ok = ctx.restart().is_ok();
+                        log::log(K::Effect { msg: which, actor, step: i, what: "ctx_restart", arg: 0, ok });
+                    }
+                }
                 SStep::CtxStop => {
                     // (the request is a cross-thread event: on real threads its log entry may be delayed, so a marker is
                     // logged before the call as well; oracles take [marker, entry] as the request's interval)
@@ -529,6 +540,7 @@ impl<const KK: usize> Actor for Probe<KK> {
             *c += 1;
             n
         });
+        self.inc_no = nth;
         log::log(K::CbIn { cb: Cb::Started, actor, obj: self.obj, tag: self.tag });
         let mut g = CbGuard { cb: Cb::Started, actor, obj: self.obj, tag: self.tag, done: false };
         let fault = fault_point(self.tag, "started");
